@@ -359,6 +359,9 @@ func runRandom(c *vrt.Ctx, plan randomPlan, pi, idx int, digest bool) {
 	if alive && !f.multi && !f.dense {
 		copyRoundTrip(c, r)
 	}
+	if alive && !f.multi {
+		copyMatrix(c, r)
+	}
 	if alive && f.directed {
 		undirectView(c, r)
 	}
